@@ -55,6 +55,7 @@ let op_of (tok : string) : op =
   | ["u"; i; b] -> OpUpdate (nat_of_string i, parse b)
   (* update_rayon / scripted join: same function as update (C08 compares the real runs) *)
   | ["uy"; i; b] -> OpUpdate (nat_of_string i, parse b)
+  | ["um"; i; b] | ["umy"; i; b] -> OpUpdate (nat_of_string i, parse b)
   | ["us"; i; b; _] -> OpUpdate (nat_of_string i, parse b)
   | ["w"; i; b] -> OpWrite (nat_of_string i, parse b)
   | ["ur"; i; b] -> OpUpdateReader (nat_of_string i, parse b, [])
@@ -63,6 +64,9 @@ let op_of (tok : string) : op =
   | ["x"; i; n] -> OpXof (nat_of_string i, n_of_string n)
   | ["c"; i] -> OpCount (nat_of_string i)
   | ["cl"; i] -> OpClone (nat_of_string i)
+  (* clf:j:k / rcf:j:k: Clone::clone_from into a used destination; the model's clone is a value copy *)
+  | ["clf"; i; _] -> OpClone (nat_of_string i)
+  | ["rcf"; i; _] -> OpReaderClone (nat_of_string i)
   | ["r"; i] -> OpReset (nat_of_string i)
   | ["so"; i; off] -> OpSetOffset (nat_of_string i, n_of_string off)
   | ["nr"; i] -> OpNonRoot (nat_of_string i)
